@@ -173,8 +173,8 @@ def write_search_cases(path, seed, tier, light=False):
     # adversarial search for work-maximising Dijkstra inputs (guided by the implementation itself)
     for n in ([] if light else [10, 14] if tier == "quick" else [10, 14, 20, 30]):
         for d in (True, False):
-            out.append({"k": "dijkstra_adversarial", "dir": d, "n": n, "iterations": 60000 if tier == "quick" else 300000,
-                        "restarts": 4 if tier == "quick" else 8, "seed": rng.randint(1, 10 ** 6)})
+            out.append({"k": "dijkstra_adversarial", "dir": d, "n": n, "iterations": 60000 if tier == "quick" else 120000,
+                        "restarts": 4 if tier == "quick" else 5, "seed": rng.randint(1, 10 ** 6)})
     # complete DAGs and zero-weight cycles
     for n in ([6, 8] if tier == "quick" else [6, 8, 12, 16]):
         e = {(i, j) for i in range(n) for j in range(n) if i < j}
